@@ -341,7 +341,25 @@ fn serde_attr(parts: &[String], rng: &mut Rng, vary: bool, ind: &str, out: &mut 
             out.push_str(&format!("{ind}#[serde({p})]\n"));
         }
     } else {
-        out.push_str(&format!("{ind}#[serde({})]\n", parts.join(", ")));
+        out.push_str(&attr_list("serde", &parts, rng, vary, ind));
+    }
+}
+
+/// `#[name(a, b)]` in the spellings rustc accepts: on one line, with a trailing comma, or one argument per line (the
+/// layout rustfmt produces for long lists, which ends every argument with a comma)
+pub fn attr_list(name: &str, parts: &[String], rng: &mut Rng, vary: bool, ind: &str) -> String {
+    match if vary { rng.below(6) } else { 0 } {
+        0 | 1 | 2 => format!("{ind}#[{name}({})]\n", parts.join(", ")),
+        3 => format!("{ind}#[{name}({},)]\n", parts.join(", ")),
+        4 => format!("{ind}#[{name}( {} , )]\n", parts.join(" , ")),
+        _ => {
+            let mut s = format!("{ind}#[{name}(\n");
+            for p in parts {
+                s.push_str(&format!("{ind}    {p},\n"));
+            }
+            s.push_str(&format!("{ind})]\n"));
+            s
+        }
     }
 }
 
@@ -381,7 +399,7 @@ fn field_attrs(f: &Field, o: &RenderOpts, rng: &mut Rng, ind: &str, out: &mut St
             if o.vary {
                 rng.shuffle(&mut ts);
             }
-            blocks.push(format!("{ind}#[typeshare({})]\n", ts.join(", ")));
+            blocks.push(attr_list("typeshare", &ts, rng, o.vary, ind));
         }
     } else if f.skip == Skip::Typeshare {
         blocks.push(format!("{ind}#[serde(skip)]\n"));
@@ -424,7 +442,7 @@ pub fn render_item(it: &Item, o: &RenderOpts, rng: &mut Rng, out: &mut String) {
         if args.is_empty() {
             blocks.push(format!("{ind}#[{path}]\n"));
         } else {
-            blocks.push(format!("{ind}#[{path}({})]\n", args.join(", ")));
+            blocks.push(attr_list(path, &args, rng, o.vary, &ind));
         }
     }
     let is_type = !matches!(it.kind, Kind::Alias(_) | Kind::Const { .. });
@@ -564,12 +582,19 @@ pub fn render_file(items: &[Item], inner_attrs: &[String], uses: &[String], o: &
             common += 1;
         }
         while open.len() > common {
-            open.pop();
-            out.push_str(&format!("{}}}\n", "    ".repeat(open.len())));
+            let closed = open.pop().unwrap_or_default();
+            out.push_str(&format!("{}}}{}\n", "    ".repeat(open.len()), if closed.starts_with("constblock") { ";" } else { "" }));
         }
         while open.len() < it.mods.len() {
             let m = &it.mods[open.len()];
-            out.push_str(&format!("{}pub mod {} {{\n", "    ".repeat(open.len()), m));
+            // a container named fn_* is a function body, constblock* an anonymous const block: items may be declared there too
+            if m.starts_with("fn_") {
+                out.push_str(&format!("{}pub fn {}() {{\n", "    ".repeat(open.len()), m));
+            } else if m.starts_with("constblock") {
+                out.push_str(&format!("{}const _: () = {{\n", "    ".repeat(open.len())));
+            } else {
+                out.push_str(&format!("{}pub mod {} {{\n", "    ".repeat(open.len()), m));
+            }
             if o.prelude {
                 out.push_str(&format!("{}use super::*;\n", "    ".repeat(open.len() + 1)));
             }
@@ -579,8 +604,8 @@ pub fn render_file(items: &[Item], inner_attrs: &[String], uses: &[String], o: &
         out.push('\n');
     }
     while !open.is_empty() {
-        open.pop();
-        out.push_str(&format!("{}}}\n", "    ".repeat(open.len())));
+        let closed = open.pop().unwrap_or_default();
+        out.push_str(&format!("{}}}{}\n", "    ".repeat(open.len()), if closed.starts_with("constblock") { ";" } else { "" }));
     }
     out
 }
